@@ -4,6 +4,7 @@ pub mod c06;
 pub mod c07;
 pub mod c08;
 pub mod c09;
+pub mod c10;
 pub mod c13;
 pub mod c14;
 pub mod c15;
@@ -21,6 +22,7 @@ pub fn run(prop: &str, tier: &str, replay: Option<&str>) -> i32 {
         "C07" => c07::run(prop, tier, replay),
         "C08" => c08::run(prop, tier, replay),
         "C09" => c09::run(prop, tier, replay),
+        "C10" => c10::run(prop, tier, replay),
         "C13" => c13::run(prop, tier, replay),
         "C14" => c14::run(prop, tier, replay),
         "C15" => c15::run(prop, tier, replay),
